@@ -23,6 +23,8 @@ type ReplayCase struct {
 	Vals   []NondetVal `json:"nondets"`
 	Notes  []string    `json:"notes,omitempty"`
 	Result string      `json:"native_result,omitempty"`
+	Quick  bool        `json:"quick"`
+	Seed   uint64      `json:"seed"`
 }
 
 const replayTestTmpl = `package %s
@@ -36,6 +38,8 @@ func TestVerifReplay(t *testing.T) {
 	cases := []struct {
 		id    string
 		entry string
+		quick bool
+		seed  uint64
 		vals  []uint64
 	}{
 %s	}
@@ -48,6 +52,7 @@ func TestVerifReplay(t *testing.T) {
 			}()
 			verifVals = c.vals
 			verifPos = 0
+			verifQuickFlag, verifSeedVal = c.quick, c.seed
 			switch c.entry {
 %s			default:
 				fmt.Printf("VERIF-REPLAY %%s noentry\n", c.id)
@@ -82,7 +87,7 @@ func runReplays(cases []*ReplayCase, verbose bool) error {
 		var rows, sw strings.Builder
 		entries := map[string]bool{}
 		for _, c := range cs {
-			fmt.Fprintf(&rows, "\t\t{%q, %q, []uint64{", c.ID, c.Entry)
+			fmt.Fprintf(&rows, "\t\t{%q, %q, %v, %d, []uint64{", c.ID, c.Entry, c.Quick, c.Seed)
 			for _, v := range c.Vals {
 				fmt.Fprintf(&rows, "%#x,", v.Bits)
 			}
